@@ -56,11 +56,15 @@ Definition parse_atom (b : bytes) : result (bytes * bytes) :=
 Definition upper_byte (c : N) : N := if in_range 97 122 c then c - 32 else c.
 Definition upper (b : bytes) : bytes := map upper_byte b.
 
-(*  Number.parse : the whole atom must consist of ASCII digits *)
+(*  Number.parse : the whole atom must consist of ASCII digits; int() of more
+    than 4300 digits raises ValueError (CPython's int_max_str_digits), which
+    the connection answers like an unparseable command *)
+Definition int_max_str_digits : N := 4300.
 Definition parse_number_tok (b : bytes) : result (N * bytes) :=
   match parse_atom b with
   | Ok (a, r) =>
     if forallb is_digit a then
+      if int_max_str_digits <? N.of_nat (length a) then Exc 1 else
       match parse_number a with
       | Some (n, _) => Ok (n, r)
       | None => NotParseable
@@ -125,6 +129,7 @@ Definition parse_literal (b : bytes) : result (bytes * bytes) :=
   match b2 with
   | c :: r =>
     if c =? 123 then
+      if int_max_str_digits <? N.of_nat (length (fst (span is_digit r))) then Exc 1 else
       match parse_number r with
       | Some (n, r1) =>
         let '(plus, r2) := match r1 with
@@ -159,8 +164,8 @@ Definition parse_literal (b : bytes) : result (bytes * bytes) :=
 (*  String.parse : quoted, else literal *)
 Definition parse_string (b : bytes) : result (bytes * bytes) :=
   match parse_quoted b with
-  | Ok x => Ok x
-  | _ => parse_literal b
+  | NotParseable => parse_literal b
+  | x => x
   end.
 
 (* ------------------------------------------------------------------ UTF-8 *)
@@ -209,8 +214,10 @@ Definition parse_script_name (allow_empty : bool) (b : bytes) : result (key * by
   end.
 
 (* ----------------------------------------------------------- the commands *)
+(* [bind] passes NotParseable and Exc on;  try ... except NotParseable  only
+   catches the former *)
 Definition ends (b : bytes) (c : cmd) : result cmd :=
-  match parse_endline b with Ok _ => Ok c | _ => NotParseable end.
+  bind (parse_endline b) (fun _ => Ok c).
 
 Definition parse_noop (b : bytes) : result cmd :=
   match b with
@@ -219,63 +226,40 @@ Definition parse_noop (b : bytes) : result cmd :=
       let b1 := skip_spaces b in
       match parse_string b1 with
       | Ok (t, r) => ends r (CNoop (Some t))
-      | _ => ends b1 (CNoop None)
+      | NotParseable => ends b1 (CNoop None)
+      | Exc k => Exc k
+      | OutOfFuel => OutOfFuel
       end
     else ends b (CNoop None)
   | [] => ends b (CNoop None)
   end.
 
 Definition parse_authenticate (b : bytes) : result cmd :=
-  match parse_quoted b with
-  | Ok (m, r) =>
+  bind (parse_quoted b) (fun '(m, r) =>
     match parse_string r with
     | Ok (d, _) => Ok (CAuthenticate m (Some d))
-    | _ => Ok (CAuthenticate m None)
-    end
-  | _ => NotParseable
-  end.
+    | NotParseable => Ok (CAuthenticate m None)
+    | Exc k => Exc k
+    | OutOfFuel => OutOfFuel
+    end).
 
 Definition parse_havespace (b : bytes) : result cmd :=
-  match parse_script_name false b with
-  | Ok (n, r) =>
-    match parse_number_tok r with
-    | Ok (sz, r2) => ends r2 (CHaveSpace n sz)
-    | _ => NotParseable
-    end
-  | _ => NotParseable
-  end.
+  bind (parse_script_name false b) (fun '(n, r) =>
+  bind (parse_number_tok r) (fun '(sz, r2) => ends r2 (CHaveSpace n sz))).
 
 Definition parse_putscript (b : bytes) : result cmd :=
-  match parse_script_name false b with
-  | Ok (n, r) =>
-    match parse_string r with
-    | Ok (d, r2) => ends r2 (CPutScript n d)
-    | _ => NotParseable
-    end
-  | _ => NotParseable
-  end.
+  bind (parse_script_name false b) (fun '(n, r) =>
+  bind (parse_string r) (fun '(d, r2) => ends r2 (CPutScript n d))).
 
 Definition parse_name_cmd (allow_empty : bool) (mk : key -> cmd) (b : bytes) : result cmd :=
-  match parse_script_name allow_empty b with
-  | Ok (n, r) => ends r (mk n)
-  | _ => NotParseable
-  end.
+  bind (parse_script_name allow_empty b) (fun '(n, r) => ends r (mk n)).
 
 Definition parse_rename (b : bytes) : result cmd :=
-  match parse_script_name false b with
-  | Ok (o, r) =>
-    match parse_script_name false r with
-    | Ok (n, r2) => ends r2 (CRenameScript o n)
-    | _ => NotParseable
-    end
-  | _ => NotParseable
-  end.
+  bind (parse_script_name false b) (fun '(o, r) =>
+  bind (parse_script_name false r) (fun '(n, r2) => ends r2 (CRenameScript o n))).
 
 Definition parse_checkscript (b : bytes) : result cmd :=
-  match parse_string b with
-  | Ok (d, r) => ends r (CCheckScript d)
-  | _ => NotParseable
-  end.
+  bind (parse_string b) (fun '(d, r) => ends r (CCheckScript d)).
 
 (* command names, upper case *)
 Definition kw_NOOP : bytes := [78;79;79;80].
